@@ -30,7 +30,7 @@ ASSUMPTIONS = [
     "fresh sampler objects per run; reuse of an already used sampler object is outside the statement",
     "a run that ends in a third-party exception must end identically in every variant",
 ]
-REQUIRED_COUNTERS = {"base_runs": 30, "variant_njobs": 20, "variant_ctor_seeds": 20, "variant_verbose": 8, "variant_folder": 8,
+REQUIRED_COUNTERS = {"models_mutating_their_argument": 5, "base_runs": 30, "variant_njobs": 20, "variant_ctor_seeds": 20, "variant_verbose": 8, "variant_folder": 8,
                      "variant_fresh_process": 10, "rl_runs": 4}
 SHARDS = {"quick": 16, "thorough": 16}
 SHARD_WATCHDOG = {"quick": 1500, "thorough": 10800}
@@ -84,7 +84,11 @@ def run_case(desc, ctx):
     heavy = i % 4 == 0            # all nine samplers, incl. RF/GP/CORS
     rl = i % 6 == 1
     kinds = None if heavy else G.CHEAP + ["XGBoost"]
-    cfg = CG.gen_config(rng, kinds=kinds, scheduler="rl" if rl else None, n_samplers=int(rng.integers(1, 6)), max_bs=3)
+    mutating = i % 5 == 2   # the user's model rearranges its parameter array in place
+    cfg = CG.gen_config(rng, kinds=kinds, scheduler="rl" if rl else None, n_samplers=int(rng.integers(1, 6)), max_bs=3,
+                        model="mut" if mutating else "plain", params=int(rng.integers(2, 5)) if mutating else None)
+    if mutating:
+        c["models_mutating_their_argument"] = 1
     if heavy:  # force a given class into a given position so that every class meets every role over a run of cases
         k = G.SAMPLER_KINDS[(i // 4) % 9]
         pos = int(rng.integers(0, len(cfg["lineup"]) + 1))
